@@ -65,3 +65,33 @@ void h_lemma_gap_map(void)
   __CPROVER_assert(0, "vacuity canary");
 #endif
 }
+
+/* ---- ML element update ---- */
+#define CONTRACT_K_ml_ratio_geo2d CONTRACT_K_ml_ratio
+#define CONTRACT_K_ml_ratio_block2d CONTRACT_K_ml_ratio
+#define CONTRACT_K_ml_ratio_geo3d CONTRACT_K_ml_ratio
+#define CONTRACT_K_ml_ratio_block3d CONTRACT_K_ml_ratio
+#include "K_ml_ratio_geo2d.c"
+#include "K_ml_ratio_block2d.c"
+#include "K_ml_ratio_geo3d.c"
+#include "K_ml_ratio_block3d.c"
+float nondet_float(void);
+#define ML_H(k)                                                                                                       \
+  void h_##k(void) { g_ratio = nondet_float(); g_limit = nondet_float(); k(nondet_float(), nondet_float(), nondet_float()); }                                              \
+  /* data generated exactly from the model with factor f (1e-3 <= f <= 1e3; sums in the normal float range): the update \
+     returns the quotient measured / model - never 0 - however small the threshold comparison makes 'measured' look */                                   \
+  void h_lemma_fixed_point_##k(void)                                                                                   \
+  {                                                                                                                   \
+    const float model = nondet_float(), f = nondet_float(), threshold = nondet_float();                                \
+    __CPROVER_assume(model >= 1e-20F && model <= 1e20F && f >= 1e-3F && f <= 1e3F && threshold >= 0.F);                \
+    const float measured = model * f;                                                                                 \
+    g_ratio = nondet_float(); /* the quotient measured / model (a non-NaN float; its accuracy is IEEE-754 division, not proved here) */ \
+    __CPROVER_assume(!__CPROVER_isnanf(g_ratio));                                                                      \
+    g_limit = 10000 * model;                                                                                          \
+    const float r = k(measured, model, threshold);                                                                    \
+    __CPROVER_assert(r == g_ratio, "the ML ratio is the update for data generated from the model");                 \
+  }
+ML_H(K_ml_ratio_geo2d)
+ML_H(K_ml_ratio_block2d)
+ML_H(K_ml_ratio_geo3d)
+ML_H(K_ml_ratio_block3d)
